@@ -46,6 +46,7 @@ def plan(tier, seed):
     shards += [dict(s, naming="adversarial", bound=s["bound"] + " naming=adversarial") for s in adv]
     shards += [dict(s, naming="unicode", bound=s["bound"] + " naming=unicode (non-ASCII identifiers)") for s in adv]
     shards += [dict(s, naming="hyphen", bound=s["bound"] + " naming=hyphen (characters sorting before the dot)") for s in adv]
+    shards += [dict(s, naming="selfprefix", bound=s["bound"] + " naming=selfprefix (a component repeats its parent's name)") for s in adv]
     for s in shards:
         s["part"] = "graph"
         s["rules"] = True
